@@ -616,16 +616,40 @@ class AConverter(Abstract):
                     raise C.Raised(ExcVal(ValueError, ("refused by the converter",)))
                 return SVal(str, unconv(self.ident, v))
             return unconvert
+        if name == "convert":
+            def convert(value):
+                value = it.force(value) if isinstance(value, SIte) else value
+                try:
+                    v = toV(it, value)
+                except C.Unsupported:
+                    try:
+                        v = it.embed(value if not isinstance(value, SInt) else it.concrete_key(value))
+                    except Exception:
+                        v = it.fresh("member", "V")
+                it.st.ghost.setdefault("converted", []).append(v)
+                if not it.branch(conv_ok_l(self.ident, v)):
+                    raise C.Raised(ExcVal(ValueError, ("refused by the converter",)))
+                return SVal(object, conv_l(self.ident, v), {"eq": "term"})
+            return convert
         raise C.Unsupported(f"converter.{name}")
+
+
+conv_l = z3.Function("list_conv", V, V, V)
+conv_ok_l = z3.Function("list_conv_accepts", V, V, z3.BoolSort())
 
 
 class ASelfList(Abstract):
     """self for ElementList._listAppend: exactly one list attribute with an abstract converter"""
     pytype = B.ElementList
 
+    def __init__(self):
+        self.appended = []
+
     def p_getattr(self, it, name):
         if name == "listaggregates":
             return {"attrx": AConverter(it.lit("attrx"))}
+        if name == "append":
+            return lambda m: self.appended.append(m)
         raise C.Unsupported(f"self.{name}")
 
 
@@ -650,6 +674,22 @@ class MemberTEArg(Arg):
     def make(self, it):
         return AMemberTE(self.name), []
 
+
+def call_el_apply(it, fn, a):
+    self_ = ASelfList()
+    it.call(B.ElementList._apply_args, [self_] + list(a), {})
+    return {"appended": self_.appended, "converted": it.st.ghost.get("converted", [])}
+
+
+CONTRACTS += [
+    Contract("ofxtools.models.base:ElementList._apply_args",
+             args=[OneOfArg("m0", ["text", 3, 2.5, b"x", ("t",), True]), TextArg("m1")], call=call_el_apply,
+             ensures=[("C04-every-member-goes-through-the-declared-converter", "len(result['converted']) == 2 and len(result['appended']) == 2"),
+                      ("C03-what-the-converter-returns-is-stored", "spec.aggregate.all_converted(result['appended'], 'attrx')")],
+             raises=[(ValueError, "True", "may")],
+             notes="two positional members, the first of any Python type (text, int, float, bytes, tuple, bool), the second an arbitrary text: each is handed to the list element's converter - which may refuse it - and what it returns is what is appended",
+             props=["C04", "C03"], symbolic_only=True),
+]
 
 L0 = len(CONTRACTS)
 CONTRACTS += [
